@@ -454,6 +454,11 @@ class Oracle:
                     self.bad('stop-current-wrong-target',
                              'stop-current stopped jobs {} while the current job is {}'.format(
                                  stops, st.fg_before), k)
+            if st.kind in ('stop-current', 'stop', 'status', 'capture', 'index') and st.error is None and \
+                    list(st.jc_after[1]) != list(st.jc_before[1]):
+                # only stop-all (and a job's completion) may take waiting jobs out of the queue
+                self.bad('queue-changed-by:' + st.kind,
+                         '{} changed the waiting queue from {} to {}'.format(st.inp, st.jc_before[1], st.jc_after[1]), k)
             if st.kind == 'stop-all':
                 if sorted(stops) != sorted(st.exec_before):
                     self.bad('stop-all-wrong-targets',
